@@ -1004,4 +1004,27 @@ template <class T> static inline int gen_ratio_pair (vp::Src& s, Vec3<T>& a, Vec
     return mode;
 }
 
+// labels describing a ratio vector, ids l0 + RL_...
+enum
+{
+    RL_ONE_SMALL,
+    RL_TWO_SMALL,
+    RL_ZERO_COMPONENT,
+    RL_K_LOW,
+    RL_K_MID,
+    RL_K_BEYOND,
+    RL_SCALED,
+    RL_COUNT
+};
+#define C09_RATIO_LABELS "one_small_component", "two_small_components", "one_component_exactly_zero", "k_1..12", "k_13..digits-1", "k_digits..digits+10", "overall_scale_2^e"
+template <class T> static inline void label_ratio (vp::Ctx& c, const RatioInfo& ri, int l0)
+{
+    c.label (l0 + (ri.nsmall == 1 ? RL_ONE_SMALL : RL_TWO_SMALL));
+    if (ri.nzero) c.label (l0 + RL_ZERO_COMPONENT);
+    c.label (l0 + (ri.kmin <= 12 ? RL_K_LOW : ri.kmin < Dig<T>::n ? RL_K_MID : RL_K_BEYOND));
+    c.label (l0 + (ri.kmax <= 12 ? RL_K_LOW : ri.kmax < Dig<T>::n ? RL_K_MID : RL_K_BEYOND));
+    if (ri.e != 0) c.label (l0 + RL_SCALED);
+    c.nt ();
+}
+
 } // namespace c09
